@@ -27,7 +27,7 @@ EDGES_A = [0.1, 0.4, 0.7, 1.0]
 EDGES_B = [0.1, 0.3, 0.6, 1.0]  # same bin count
 EDGES_C = [0.1, 0.55, 1.0]  # other bin count
 WORKLOADS = [
-    "create_fresh", "create_overwrite", "create_buffered", "reopen_compute_meta", "trees_fresh", "trees_other_edges", "trees_other_closed",
+    "create_fresh", "create_overwrite", "create_buffered", "create_overwrite_buffered", "reopen_compute_meta", "trees_fresh", "trees_other_edges", "trees_other_closed",
     "trees_other_count", "trees_forced", "trees_forced_other_edges", "trees_unbinned_over_binned", "measure_over_cached",
     "corrfunc_file_fresh", "corrfunc_file_over_old", "corrdata_files_fresh", "corrdata_files_over_old",
     "histdata_files_over_old", "config_file_fresh", "config_file_over_old", "corrdata_files_dotted_over_old",
@@ -79,6 +79,7 @@ class World:
         self.unk = table(25, z=False)
         self.ur = table(25, z=False)
         self.ref2 = table(22)
+        self.big = table(300)  # patch files larger than one I/O buffer (8 KiB): they reach the disk in several writes
 
     def cobj(self):
         return cats.coords_obj(self.centres)
@@ -119,7 +120,7 @@ class C08(Check):
 
     def cases(self, tier, seed):
         if tier == "quick":
-            for w in ("create_fresh", "create_overwrite", "create_buffered", "trees_fresh", "trees_other_edges",
+            for w in ("create_fresh", "create_overwrite", "create_buffered", "create_overwrite_buffered", "trees_fresh", "trees_other_edges",
                       "trees_forced_other_edges", "measure_over_cached", "corrfunc_file_fresh", "corrdata_files_dotted_over_old",
                       "config_file_over_old", "corrdata_files_over_partial:011", "corrdata_files_over_partial:110", "create_many_patches"):
                 for s in range(4):
@@ -366,6 +367,8 @@ class C08(Check):
         from yaw import Catalog
 
         ref_dir = state / "ref"
+        if "buffered" in wname:
+            world.new = world.big
         cfgA, cfgB, cfgC = make_cfg(EDGES_A), make_cfg(EDGES_B), make_cfg(EDGES_C)
         cfgA_left = make_cfg(EDGES_A, "left")
 
@@ -443,14 +446,14 @@ class C08(Check):
                 return refs
             return make
 
-        if wname in ("create_fresh", "create_overwrite", "create_buffered"):
+        if wname in ("create_fresh", "create_overwrite", "create_buffered", "create_overwrite_buffered"):
             def prepare():
-                if wname == "create_overwrite":
+                if wname in ("create_overwrite", "create_overwrite_buffered"):
                     c = cats.create(ref_dir, world.old, centers=world.cobj())
                     c.build_trees(cfgA.binning.edges, closed="right", max_workers=1)
 
             def workload():
-                if wname == "create_buffered":
+                if wname in ("create_buffered", "create_overwrite_buffered"):
                     # the documented lower-level entry point with per-patch write buffers: records reach
                     # the disk only when a buffer fills up or the writer is closed
                     import pandas as pd
@@ -460,12 +463,12 @@ class C08(Check):
 
                     reader = readers.DataFrameReader(pd.DataFrame(world.new), ra_name="ra", dec_name="dec", weight_name="w",
                                                      redshift_name="z", chunksize=40)
-                    ycat.write_patches(ref_dir, reader, world.cobj(), overwrite=False, progress=False, max_workers=1,
-                                       buffersize=8)  # smaller than a patch: buffers are flushed while reading and at close
+                    ycat.write_patches(ref_dir, reader, world.cobj(), overwrite=(wname == "create_overwrite_buffered"), progress=False,
+                                       max_workers=1, buffersize=8)  # smaller than a patch: buffers are flushed while reading and at close
                     return
                 cats.create(ref_dir, world.new, centers=world.cobj(), chunksize=40, overwrite=(wname == "create_overwrite"))
 
-            allowed = ("new", "old") if wname == "create_overwrite" else ("new",)
+            allowed = ("new", "old") if wname in ("create_overwrite", "create_overwrite_buffered") else ("new",)
             spec = dict(prepare=prepare, workload=workload, references=catalog_refs(allowed, ["A"]),
                         probes={"open": probe_open, "measure:A": probe_measure(cfgA)},
                         judge=lambda p, v, r: judge_catalog(p, v, r, allowed))
